@@ -7,7 +7,8 @@ from vv.ref import cooc as R
 ID = "C11"
 LEVEL = "exploration"
 TECHNIQUE = "runtime monitoring: dense float64 re-implementation of the documented EM procedure as reference model, range/column-sum/support invariants on every output, and an icontract postcondition on the real em_update_matrix (interpreted mode) confining each occurrence's unit of mass to its own row"
-LEVEL_TEXT = ("The four co-occurrence vectorizers are fitted with n_iter 0..3 and epsilon in {0,1e-3,0.05,0.2,0.6} over the window/kernel menu and "
+LEVEL_TEXT = ("The four co-occurrence vectorizers are fitted with n_iter 0..3 and epsilon in {0,1e-3,0.05,0.2,0.6} (plus dyadic 0.5/0.25/0.125, where integer "
+              "counts make a cell exactly equal to epsilon and the strictness of 'below epsilon' is decided) over the window/kernel menu and "
               "n_threads {1,3}; outputs are compared with a dense float64 run of the documented procedure (cases within 1e-4 of the threshold at "
               "any step are skipped and counted), and independently every output is checked for entries in [0,1], column sums <= 1 (= 1 for "
               "non-empty columns when epsilon = 0) and support inside that of the n_iter=0 matrix. In interpreted mode every call of the real "
@@ -21,8 +22,8 @@ ASSUMPTIONS = [
     "thresholding zeroes entries strictly below epsilon after each column normalisation",
 ]
 MIN_NONTRIVIAL = {"quick": 200, "thorough": 2000}
-REQUIRED = {"quick": {"em_compared": 500, "invariant_checks": 500, "contract_evaluations": 5000, "jit_em_compared": 80},
-            "thorough": {"em_compared": 5000, "invariant_checks": 5000, "contract_evaluations": 50000, "jit_em_compared": 800}}
+REQUIRED = {"quick": {"em_compared": 500, "invariant_checks": 500, "contract_evaluations": 5000, "jit_em_compared": 80, "cells_exactly_at_epsilon": 10},
+            "thorough": {"em_compared": 5000, "invariant_checks": 5000, "contract_evaluations": 50000, "jit_em_compared": 800, "cells_exactly_at_epsilon": 80}}
 
 
 def plan(tier, seed):
@@ -156,6 +157,8 @@ def check_case(ctx, c, contract_state=None):
         E, amb = R.em(ref.seqs, ref.n_rows, ref.n, ref.wins, ref.radii, ref.P, ref.M, c["n_iter"], c["epsilon"], rows_of=ref.rows_of, times=ref.times, ngram=ref.ngram)
     if amb:
         return ctx.skip("a value within 1e-4 (relative) of epsilon at some thresholding step")
+    if getattr(R.em, "last_exact_hits", 0):
+        ctx.count("cells_exactly_at_epsilon", R.em.last_exact_hits)
     ctx.count("em_compared")
     if ctx.mode != "PY":
         ctx.count("jit_em_compared")
@@ -182,6 +185,14 @@ def run(ctx):
             c["n_threads"] = r.choice([1, 1, 3])
             if i < 2:
                 ctx.sample(c)
+            check_case(ctx, c, cs)
+        # the boundary itself: dyadic epsilon, so that count/column-sum == epsilon happens exactly ("below epsilon" is strict)
+        for i in ctx.indices(ctx.pick(500, 4000)):
+            r = ctx.rng("boundary", i)
+            c = coh.gen_case(r, em=True, lengths=[0, 1, 2, 3, 5, 8])
+            c["n_threads"] = 1
+            c["n_iter"] = r.choice([0, 0, 1])
+            c["epsilon"] = r.choice([0.5, 0.25, 0.125])
             check_case(ctx, c, cs)
     else:
         shapes = coh.SHAPES[ctx.shard :: ctx.nshards]
